@@ -571,8 +571,10 @@ def overused_constant(source: str, *, root_is_static: bool) -> str:
     # For every node, all scopes it can be found in
     scope_node_definitions = collections.defaultdict(set)
     for scope in itertools.chain([root], core.walk(root, (ast.FunctionDef, ast.AsyncFunctionDef))):
-        for node in core.walk(scope, ast.AST):
-            scope_node_definitions[node].add(scope)
+        # Decorators, argument defaults and annotations are evaluated outside of the function
+        for child in [scope] if scope is root else scope.body:
+            for node in core.walk(child, ast.AST):
+                scope_node_definitions[node].add(scope)
 
     for scope in itertools.chain([root], core.walk(root, ast.AST(body=list))):
         if scope.body and core.match_template(scope.body[0], ast.Expr(value=ast.Constant)):
